@@ -167,7 +167,8 @@ func c02Classify(raw []byte, srcAt netip.AddrPort, to *simSock, cr c02Creds, kno
 
 		return "effective"
 	case stun.ClassSuccessResponse:
-		if stun.MessageIntegrity([]byte(cr.remoteP)).Check(m) != nil {
+		// (an unknown remote password authenticates nothing, not even a message signed with the empty key)
+		if cr.remoteP == "" || stun.MessageIntegrity([]byte(cr.remoteP)).Check(m) != nil {
 			return "inert"
 		}
 		if !known {
@@ -305,7 +306,7 @@ func TestVerif_C02_Injection(t *testing.T) {
 			_ = s.ag.addRemoteSync(s.epCandidate(0, eps[0]))
 			_ = s.ag.addRemoteSync(s.epCandidate(1, eps[1]))
 			signalTCP()
-			if phase == "restarted" {
+			if phase == "restarted" || rapid.Bool().Draw(rt, "tickWithoutRemoteCredentials") {
 				s.ag.tick()
 			}
 		}
@@ -511,6 +512,10 @@ func TestVerif_C02_Injection(t *testing.T) {
 			}
 			if key != "" {
 				setters = append(setters, stun.NewShortTermIntegrity(key))
+			} else if noRemoteCreds && useResp && nMut == 0 {
+				// while the remote password is unknown the "unmutated" answer is one signed with the empty key
+				setters = append(setters, stun.NewShortTermIntegrity(""))
+				muts = append(muts, "signed-with-the-empty-key")
 			}
 			if fingerprint != "absent" {
 				setters = append(setters, stun.Fingerprint)
